@@ -49,12 +49,12 @@ def s_binop():
         "eqmask": st.lists(st.booleans(), min_size=5, max_size=5)}))
 
 
-def default_pool(cn):
+def default_pool(cn, size=10):
     if cn in ("SO3", "SE3", "UnitQuaternion", "Twist3"):
-        return [{"rot": {"axis": [0.3 + 0.1 * k, -0.5, 0.8 - 0.2 * k], "angle": 0.3 + 0.25 * k, "via": "rod"}, "t": [1.0 + k, -2.0, 0.5 * k]} for k in range(10)]
+        return [{"rot": {"axis": [0.3 + 0.1 * k, -0.5, 0.8 - 0.2 * k], "angle": 0.3 + 0.12 * k, "via": "rod"}, "t": [1.0 + k, -2.0, 0.5 * k]} for k in range(size)]
     if cn in ("SO2", "SE2", "Twist2"):
-        return [{"angle": 0.3 + 0.25 * k, "t": [1.0 + k, -2.0 + 0.5 * k]} for k in range(10)]
-    return [[1.0 + k, 2.0, -3.0 + 0.5 * k, 4.0] for k in range(10)]
+        return [{"angle": 0.3 + 0.12 * k, "t": [1.0 + k, -2.0 + 0.5 * k]} for k in range(size)]
+    return [[1.0 + k, 2.0, -3.0 + 0.5 * k, 4.0] for k in range(size)]
 
 
 def gen_cells(tier):
@@ -66,6 +66,12 @@ def gen_cells(tier):
                         continue
                     yield {"kind": "binop", "cls": cn, "op": op, "m": m, "n": n, "pool": default_pool(cn),
                            "eqmask": [True, False, True, False, False]}
+            # longer sequences than the 1..5 of the statement's quantifier (a vectorised path may switch with the length)
+            for m, n in ((9, 9), (1, 9), (9, 1), (17, 17), (9, 4)):
+                if op in ("**", "point", "scalar*", "*scalar", "scalar+", "scalar-") and n != 1:
+                    continue
+                yield {"kind": "binop", "cls": cn, "op": op, "m": m, "n": n, "pool": default_pool(cn, 34),
+                       "eqmask": [True, False, True, False, False]}
 
 
 CTORS = ["Rx", "Ry", "Rz", "RPY", "Eul", "Tx", "Ty", "Tz", "SO2", "Twist3.Rx", "Twist3.Ry", "Twist3.Rz", "UQ.Rx", "UQ.Ry", "UQ.Rz", "SE3(Nx3)", "Exp", "SO3.Exp(Nx3)", "SE2.Exp(list)", "SO2.Exp(list)"]
@@ -81,9 +87,10 @@ def s_ctor():
 
 def gen_ctor_cells(tier):
     rows = [[0.3, -0.7, 1.1], [1.2, 0.4, -0.9], [-2.0, 0.8, 0.5], [0.1, 1.4, 2.2], [2.5, -1.1, -0.3]]
+    rows = rows + [[r[0] + 0.11 * k, r[1] - 0.07 * k, r[2] + 0.05 * k] for k in range(1, 4) for r in rows]      # 20 rows
     for ct in CTORS:
         for cls in ("SO3", "SE3"):
-            for m in range(1, 6):
+            for m in (1, 2, 3, 4, 5, 9, 17):
                 for unit in ("rad", "deg"):
                     for order in (ORDERS if ct == "RPY" else ["zyx"]):
                         for form in ("list", "array"):
@@ -175,9 +182,9 @@ def s_unary():
 
 def gen_unary_cells(tier):
     for cn in CLASSES:
-        for m in range(1, 6):
-            yield {"kind": "unary", "cls": cn, "m": m, "pool": default_pool(cn)[:5], "n": 2, "svec": [0.0, 0.25, 1.0], "s": 0.4,
-                   "thetas": [0.5, -1.0, 2.0, 0.1, 3.0]}
+        for m in (1, 2, 3, 4, 5, 9, 17):          # 9, 17: beyond the statement's 1..5 (a vectorised path may switch with the length)
+            yield {"kind": "unary", "cls": cn, "m": m, "pool": default_pool(cn, 17)[:max(5, m)], "n": 2, "svec": [0.0, 0.25, 1.0], "s": 0.4,
+                   "thetas": [0.5, -1.0, 2.0, 0.1, 3.0] + [0.2 * k - 1.5 for k in range(12)]}
 
 
 # --------------------------------------------------------------------------- #
@@ -245,11 +252,12 @@ def _binop(case):
     c = Checker("binop", cls=cn, op=op, m=m, n=n)
     pool = [value(cn, s) for s in case["pool"]]
     lv = pool[:m]
+    half = len(pool) // 2
     if op in ("==", "!="):
         # right operand: some elements equal to the left ones
-        rv = [(lv[i % m] if case["eqmask"][i] else pool[5 + i]) for i in range(n)]
+        rv = [(lv[i % m] if case["eqmask"][i % len(case["eqmask"])] else pool[half + i]) for i in range(n)]
     else:
-        rv = pool[5:5 + n]
+        rv = pool[half:half + n]
     left = mk(cn, lv)
     site = "%s %s" % (cn, op)
     if op == "**":
